@@ -35,6 +35,11 @@ def run(ctx):
     ctx.extra["explanation"] = ("Deductive: local conditions L1, L3-L8 of particle Gibbs as obligations on the real source for all N, T, thresholds, parent states. "
                                 "Bounded stand-in: exact transition matrix of the real ParticleGibbsTreeSampler.sample_tree over all trees on n<=3 points, N=2.")
 
+    if ctx.tier == "thorough":
+        from vcheck import lean as L
+
+        for f_ in ("MGibbs.lean",):
+            L.check_file(ctx, f_, "C01")
     # ---- bounded stand-in: exact-kernel oracle
     from bounded import kernels as BK
 
